@@ -1,13 +1,16 @@
-(* Correspondence checker and property monitor for Model/Shield.v (float instance). *)
+(* Correspondence checker and property monitor for Model/Shield.v + Model/ShieldRe.v (float
+   instance): histories of the shield manager WITH re-entrant listeners. *)
 From Coq Require Import List ZArith Bool Floats String.
-From SR Require Import Base.CaseLib Model.Shield.
+From SR Require Import Base.CaseLib Model.Shield Model.ShieldRe.
 Import ListNotations.
 Open Scope Z_scope.
 
-Inductive observed := Ok (l : list (obs float)) | HarnessPanic (msg : string).
+Inductive observed := Ok (t : list (titem float)) | HarnessPanic (msg : string).
 
-(* input: unit pool size, key pool size, operations; output: one record per operation *)
-Definition case := (nat * nat * list (op float) * observed)%type.
+(* input: unit pool size, key pool size, the script queues of the three listener slots, the
+   top-level operations; output: the trace (calls entered, listener invocations with the state
+   the listener sees, returns with the state right after), nested calls included *)
+Definition case := (nat * nat * slots float * list (op float) * observed)%type.
 
 Definition optZ_eqb := option_eqb Z.eqb.
 
@@ -25,18 +28,45 @@ Definition uprobe_eqb (a b : uprobe float) : bool :=
   let '(s, m, hs) := a in let '(s', m', hs') := b in
   Bool.eqb s s' && feqb_bits m m' && list_eqb Bool.eqb hs hs'.
 
-Definition obs_eqb (a b : obs float) : bool :=
-  list_eqb event_eqb (o_evs a) (o_evs b) && option_eqb feqb_bits (o_ret a) (o_ret b) &&
-  list_eqb uprobe_eqb (o_probe a) (o_probe b).
+Definition fkind_pair_eqb (a b : fkind * float) : bool :=
+  fkind_eqb (fst a) (fst b) && feqb_bits (snd a) (snd b).
+Definition stats_eqb (a b : stats float) : bool :=
+  feqb_bits (s_atk a) (s_atk b) && feqb_bits (s_def a) (s_def b) && feqb_bits (s_hp a) (s_hp b) &&
+  feqb_bits (s_boost a) (s_boost b) && feqb_bits (s_taken a) (s_taken b).
+Definition op_eqb (a b : op float) : bool :=
+  match a, b with
+  | OStats u s, OStats u' s' => (u =? u') && stats_eqb s s'
+  | OAdd k s t f fl, OAdd k' s' t' f' fl' =>
+      (k =? k') && (s =? s') && (t =? t') && list_eqb fkind_pair_eqb f f' && feqb_bits fl fl'
+  | ORemove k t, ORemove k' t' => (k =? k') && (t =? t')
+  | OAbsorb t d, OAbsorb t' d' => (t =? t') && feqb_bits d d'
+  | _, _ => false
+  end.
 
-Definition model_out (c : case) : list (obs float) :=
-  let '(nu, nk, ops, _) := c in run FOps nu nk (init (N := float)) ops.
+Definition titem_eqb (a b : titem float) : bool :=
+  match a, b with
+  | TCall o, TCall o' => op_eqb o o'
+  | TEv e p, TEv e' p' => event_eqb e e' && list_eqb uprobe_eqb p p'
+  | TRet r p, TRet r' p' => option_eqb feqb_bits r r' && list_eqb uprobe_eqb p p'
+  | _, _ => false
+  end.
+
+(* fuel: one more than the number of operations in all scripts always suffices
+   (Proofs/ShieldReProofs.v, fuel_enough) *)
+Definition case_fuel (q : slots float) : nat := S (total_ops q).
+
+Definition model_out (c : case) : outcome (list (titem float)) :=
+  let '(nu, nk, q, ops, _) := c in
+  match runL FOps nu nk (case_fuel q) q (init (N := float)) ops with
+  | Done (_, _, t) => Done t
+  | OutOfFuel => OutOfFuel
+  end.
 
 Definition check_case (c : case) : bool :=
-  let '(_, _, _, o) := c in
-  match o with
-  | Ok l => list_eqb obs_eqb (model_out c) l
-  | HarnessPanic _ => false
+  let '(_, _, _, _, o) := c in
+  match o, model_out c with
+  | Ok t, Done t' => list_eqb titem_eqb t' t
+  | _, _ => false
   end.
 
 (* ------------------------------------------------------------------------------------ *)
@@ -181,19 +211,62 @@ Definition mon_step (st : list (Z * stats float)) (prev : list (uprobe float))
 Definition upd_stats (st : list (Z * stats float)) (o : op float) : list (Z * stats float) :=
   match o with OStats u s => aset st u s | _ => st end.
 
-Fixpoint mon_run (st : list (Z * stats float)) (prev : list (uprobe float))
-         (ops : list (op float)) (l : list (obs float)) : bool :=
-  match ops, l with
-  | [], [] => true
-  | o :: ops', ob :: l' =>
+(* The trace is read with a stack of open calls.  A listener invocation belongs to the innermost
+   open call (the outer ones are suspended inside their own Emit).  Per call, outer or nested:
+   - the state seen by the listener of its FIRST event is the state the call committed; together
+     with the state before the call, the call's own events and its return value it must satisfy
+     the per-call predicate [mon_step] (the property's clauses for one call);
+   - at each later event of the call, and when it returns, the visible state must be exactly the
+     last state observed before (the end of the nested calls, or the previous event): the call
+     itself writes nothing after its first emission.  A call without events changes nothing.
+   The stat vectors the getter serves are followed through nested OStats operations. *)
+Record mframe := mkF {
+  f_op : op float; f_pre : list (uprobe float); f_st : list (Z * stats float);
+  f_evs : list (event float);                      (* own events so far, latest first *)
+  f_commit : option (list (uprobe float)) }.
+
+Fixpoint mon_trace (st : list (Z * stats float)) (prev : list (uprobe float))
+         (stk : list mframe) (t : list (titem float)) : bool :=
+  match t with
+  | [] => match stk with [] => true | _ => false end
+  | TCall o :: r =>
       let st' := upd_stats st o in
-      mon_step st' prev o ob && mon_run st' (o_probe ob) ops' l'
-  | _, _ => false
+      mon_trace st' prev (mkF o prev st' [] None :: stk) r
+  | TEv e p :: r =>
+      match stk with
+      | [] => false
+      | f :: s =>
+          match f_commit f with
+          | None => mon_trace st p (mkF (f_op f) (f_pre f) (f_st f) (e :: f_evs f) (Some p) :: s) r
+          | Some c =>
+              list_eqb uprobe_eqb prev p &&
+              mon_trace st p (mkF (f_op f) (f_pre f) (f_st f) (e :: f_evs f) (Some c) :: s) r
+          end
+      end
+  | TRet rt p :: r =>
+      match stk with
+      | [] => false
+      | f :: s =>
+          let commit := match f_commit f with Some c => c | None => p end in
+          list_eqb uprobe_eqb prev p &&
+          mon_step (f_st f) (f_pre f) (f_op f) (mkObs (rev (f_evs f)) rt commit) &&
+          mon_trace st p s r
+      end
+  end.
+
+(* the calls entered with an empty stack are the top-level operations, in order *)
+Fixpoint top_calls (d : nat) (t : list (titem float)) : list (op float) :=
+  match t with
+  | [] => []
+  | TCall o :: r => match d with 0%nat => o :: top_calls 1 r | _ => top_calls (S d) r end
+  | TEv _ _ :: r => top_calls d r
+  | TRet _ _ :: r => top_calls (pred d) r
   end.
 
 Definition monitor_case (c : case) : bool :=
-  let '(nu, nk, ops, o) := c in
+  let '(nu, nk, _, ops, o) := c in
   match o with
-  | Ok l => mon_run [] (probe FOps nu nk (init (N := float))) ops l
+  | Ok t => list_eqb op_eqb (top_calls 0 t) ops &&
+            mon_trace [] (probe FOps nu nk (init (N := float))) [] t
   | HarnessPanic _ => false
   end.
